@@ -793,12 +793,16 @@ class RefResolver(object):
         for part in parts:
             part = part.replace(u"~1", u"/").replace(u"~0", u"~")
 
-            if isinstance(document, Sequence):
-                # Array indexes should be turned into integers
-                try:
-                    part = int(part)
-                except ValueError:
-                    pass
+            if (
+                isinstance(document, Sequence) and
+                not isinstance(document, str) and
+                part.isascii() and
+                part.isdigit() and
+                (part == u"0" or not part.startswith(u"0"))
+            ):
+                # Array indexes (RFC 6901: "0", or digits without a
+                # leading zero) should be turned into integers
+                part = int(part)
             try:
                 document = document[part]
             except (TypeError, LookupError):
